@@ -37,6 +37,7 @@ THEOREMS = [P + n for n in [
     "bnot_text_guard_separates",
     "neg_node_guard_counterexample",
     "bitwisenot_glue_witness",
+    "generated_annotate_checks_same_expr",
     "generated_paren_unwraps_all",
     "unnest_print_parse_fixpoint",
     "strip_one_level_counterexample",
@@ -301,6 +302,44 @@ def paren_unwrap_sites(chk: Check) -> list:
     return sorted(set(sites))
 
 
+def annotate_type_checks(chk: Check) -> list:
+    """builders / generator helpers that call annotate_types(<X>, …) and then test <Y>.is_type(…): (site, X is a plain name and
+    Y is the same name) — annotating a copy and testing the original leaves the test on an un-annotated node"""
+    import glob
+
+    files = sorted(glob.glob(os.path.join(REPO, "sqlglot", "dialects", "*.py")) + glob.glob(os.path.join(REPO, "sqlglot", "parsers", "*.py"))
+                   + glob.glob(os.path.join(REPO, "sqlglot", "generators", "*.py"))) + [os.path.join(REPO, "sqlglot", "parser.py"),
+                                                                                        os.path.join(REPO, "sqlglot", "generator.py")]
+    out = []
+    for f in files:
+        try:
+            tree = ast.parse(open(f, encoding="utf-8").read())
+        except Exception:  # noqa
+            continue
+        for fn in ast.walk(tree):
+            if not isinstance(fn, ast.FunctionDef):
+                continue
+            ann = [n for n in ast.walk(fn) if isinstance(n, ast.Call) and isinstance(n.func, ast.Name) and n.func.id == "annotate_types" and n.args]
+            if not ann:
+                continue
+            first = min(a.lineno for a in ann)
+            # only type tests AFTER the annotation are tests of the annotated expression
+            tests = [n.func.value for n in ast.walk(fn) if isinstance(n, ast.Call) and isinstance(n.func, ast.Attribute) and n.func.attr == "is_type"
+                     and n.lineno > first]
+            if not tests:
+                continue
+            annotated = {a.args[0].id for a in ann if isinstance(a.args[0], ast.Name)}
+            assigned = set()
+            for n in ast.walk(fn):   # `x = annotate_types(<anything>)` annotates the returned node x
+                if isinstance(n, ast.Assign) and isinstance(n.value, ast.Call) and isinstance(n.value.func, ast.Name) and n.value.func.id == "annotate_types":
+                    assigned |= {t.id for t in n.targets if isinstance(t, ast.Name)}
+            all_named = all(isinstance(a.args[0], ast.Name) for a in ann) or bool(assigned)
+            tested = {t.id for t in tests if isinstance(t, ast.Name)}
+            ok = all_named and (not tested or bool(tested & (annotated | assigned)))
+            out.append((f"{os.path.relpath(f, REPO)}:{fn.name}", ok))
+    return sorted(set(out))
+
+
 ATHENA_SHAPES = [
     # (name, sample statement, first, kind, orReplace, body, nestedSelect)
     ("ctas-none", "CREATE TABLE t (a INT)", "create", "table", False, "none", False),
@@ -417,6 +456,10 @@ def translate(chk: Check, tabs: dict) -> str:
     lines.append("/-- (shape name, shape, `_tokenize_as_hive` on the sample's tokens, `_generate_as_hive` on its parse) -/")
     lines.append("def athenaShapes : List (String × SqlglotModel.Engine.Shape × Bool × Bool) := [" + ", ".join(
         f"({lean_str(n)}, ⟨.{f}, .{k}, {b(o)}, .{bd}, {b(ns)}⟩, {b(t)}, {b(g)})" for n, f, k, o, bd, ns, t, g in rows) + "]")
+    checks = annotate_type_checks(chk)
+    chk.cov["annotate_then_is_type_sites"] = checks
+    lines.append("/-- functions that annotate an expression and then test a type: (site, the tested expression is the annotated one) -/")
+    lines.append("def annotateTypeChecks : List (String × Bool) := [" + ", ".join(f"({lean_str(n)}, {'true' if ok else 'false'})" for n, ok in checks) + "]")
     sites = paren_unwrap_sites(chk)
     chk.cov["paren_unwrap_sites"] = sites
     lines.append("/-- generator sites that unwrap a redundant Paren around an operand: (site, levels stripped) -/")
@@ -771,7 +814,9 @@ def formatted_functions(d: str):
     inst = Dialect.get_or_raise(d or None)
     out = []
     for name, fn in sorted(inst.parser_class.FUNCTIONS.items()):
-        if getattr(fn, "__qualname__", "").startswith("build_formatted_time.") and getattr(fn, "__closure__", None):
+        if getattr(getattr(fn, "func", fn), "__name__", "") == "build_timetostr_or_tochar" or "build_timetostr_or_tochar" in getattr(fn, "__qualname__", ""):
+            out.append((name, d, "TimeToStrOrToChar"))   # picks TimeToStr / ToChar from the TYPE of its first argument
+        elif getattr(fn, "__qualname__", "").startswith("build_formatted_time.") and getattr(fn, "__closure__", None):
             cells = dict(zip(fn.__code__.co_freevars, (c.cell_contents for c in fn.__closure__)))
             ov = cells.get("dialect_override")
             out.append((name, ov if isinstance(ov, str) else d, cells["exp_class"].__name__))
@@ -872,6 +917,83 @@ def engine_templates():
     for w in ENGINE_WRAPPERS:
         for k, b in ENGINE_BODIES.items():
             yield w.format(b=b)
+
+
+TEMPORAL_ARG_CLASSES = ["TsOrDsToDate", "TsOrDsToTimestamp", "LastDay", "CurrentDate", "CurrentTimestamp", "Date", "TimeStrToDate", "TimeStrToTime",
+                        "DateTrunc", "TimestampTrunc", "UnixToTime", "DateFromParts", "StrToDate", "StrToTime", "CurrentTime", "Localtimestamp"]
+TEMPORAL_ARG_TEXTS = ["x", "CAST(x AS DATE)", "CAST(x AS TIMESTAMP)", "TO_DATE(x)", "TO_TIMESTAMP(x)", "LAST_DAY(x)", "CURRENT_DATE", "CURRENT_TIMESTAMP",
+                      "DATE_TRUNC('month', x)", "TO_DATE(x, 'YYYY-MM-DD')", "NOW()", "(CAST(x AS DATE))", "COALESCE(CAST(x AS DATE), CURRENT_DATE)"]
+
+
+def temporal_first_args(d: str) -> list:
+    """first-argument texts for a time-format function of dialect d: fixed spellings plus the text d's own generator produces for
+    every temporal-returning function class (several of them come out as a CAST or another differently typed expression)"""
+    _, exp, *_ = sg()
+    from sqlglot.errors import ErrorLevel
+
+    out = list(TEMPORAL_ARG_TEXTS)
+    for cn in TEMPORAL_ARG_CLASSES:
+        K = getattr(exp, cn, None)
+        if K is None:
+            continue
+        try:
+            node = K(this=exp.column("x")) if "this" in K.arg_types else K()
+            if cn in ("DateTrunc", "TimestampTrunc"):
+                node.set("unit", exp.Literal.string("MONTH") if cn == "DateTrunc" else exp.var("MONTH"))
+            txt = node.sql(dialect=d or None, unsupported_level=ErrorLevel.IGNORE)
+        except Exception:  # noqa
+            continue
+        if txt and txt not in out and "'" not in txt.replace("'MONTH'", ""):
+            out.append(txt)
+    return out
+
+
+def noncanonical_formats(notation: str) -> list:
+    """format strings in the notation's NON-canonical spellings (raw specifiers that do not come back from the inverse mapping),
+    alone and as a date-like triple; plus the canonical triple as a control"""
+    _, _, Dialect, *_ = sg()
+    inst = Dialect.get_or_raise(notation or None)
+    tm, inv = inst.TIME_MAPPING, inst.INVERSE_TIME_MAPPING
+    non = sorted(k for k, v in tm.items() if inv.get(v) != k and "'" not in k and "\\" not in k)
+    by_canon = {}
+    for k in non:
+        by_canon.setdefault(tm[k], k)
+    triple = [by_canon.get(c) or inv.get(c) for c in ("%Y", "%m", "%d")]
+    fmts = []
+    if all(triple):
+        fmts.append("-".join(triple))
+    canon_triple = [inv.get(c) for c in ("%Y", "%m", "%d")]
+    if all(canon_triple):
+        fmts.append("-".join(canon_triple))
+    fmts += non
+    return fmts
+
+
+def time_arg_sweep(chk: Check, dialects: list, consider_fixed, deadline: float) -> None:
+    """time-format functions x first-argument kinds x non-canonical format spellings: s2 == s1 (the format must not be re-spelled
+    on the second pass because the first argument changed shape on the first)"""
+    n = 0
+    for d in dialects:
+        if time.time() > deadline:
+            chk.note("time-format first-argument sweep cut short by the time budget")
+            break
+        try:
+            fns = formatted_functions(d)
+            args = temporal_first_args(d)
+        except Exception:  # noqa
+            continue
+        if chk.quick:
+            args = args[:10] + args[13:19]
+        for name, notation, cls in fns:
+            try:
+                fmts = noncanonical_formats(notation)
+            except Exception:  # noqa
+                continue
+            for f in fmts[: chk.pick(5, 40)]:
+                for a in args:
+                    n += 1
+                    consider_fixed(f"SELECT {name}({a}, '{f}')", d, f"timefmt-arg:{name}:{a}:{f}")
+    chk.cov["time_format_first_argument_sweep"] = {"sources": n}
 
 
 # prefix operator x operand whose rendering can start with the same character in SOME dialect (calls that dialects print
@@ -1200,6 +1322,9 @@ def search(chk: Check, hints: list, tabs: dict, budget_s: float) -> None:
     t1 = time.time()
     time_sweep(chk, dialects, consider_fixed, time.time() + chk.pick(40, 600))
     chk.cov["time_format_sweep"]["wall_s"] = round(time.time() - t1, 1)
+    t1 = time.time()
+    time_arg_sweep(chk, dialects, consider_fixed, time.time() + chk.pick(25, 600))
+    chk.cov["time_format_first_argument_sweep"]["wall_s"] = round(time.time() - t1, 1)
     t0 = time.time()  # the random search gets its own budget
     while time.time() - t0 < budget_s and len(chk.violations) < 5:
         depth = rng.choice([0, 1, 1, 2])
@@ -1243,7 +1368,7 @@ def run(chk: Check) -> None:
         if proved:
             raise
         chk.note(f"model driver unavailable ({e}); continuing with the search on the real code")
-    budget = chk.pick(18, 300)
+    budget = chk.pick(14, 300)
     if chk.broken:
         budget *= 2
     search(chk, hints, tabs, budget)
